@@ -78,7 +78,7 @@ def instantiate(rnd, c):
     return sp, tA, tB, s
 
 
-def record(rnd, c, inst, through_market):
+def record(rnd, c, inst, through_market, desc=None):
     from demeter import TokenInfo
     from demeter.uniswap import PositionInfo, UniV3Pool, V3CoreLib
     from demeter.uniswap.liquitidy_math import get_amounts, get_sqrt_ratio_at_tick as S
@@ -89,6 +89,10 @@ def record(rnd, c, inst, through_market):
     zq = rnd.random() < 0.5
     pool = UniV3Pool(t0, t1, fee, t0 if zq else t1)
     amt0, amt1 = dec_amount(rnd, c["c0"], d0), dec_amount(rnd, c["c1"], d1)
+    # "all tick pairs": the library functions take the two bounds in either order (the market orders them itself)
+    if desc is None:
+        desc = (not through_market) and rnd.random() < 0.4
+    pA, pB = (tB, tA) if desc else (tA, tB)
     if through_market:
         from demeter import Broker, MarketInfo
         from demeter.uniswap import UniLpMarket
@@ -127,17 +131,17 @@ def record(rnd, c, inst, through_market):
         else:
             c0, c1 = Decimal(0), Decimal(0)
     else:
-        u0, u1, L, pos = V3CoreLib.new_position(pool, amt0, amt1, tA, tB, s)
-        c0, c1 = V3CoreLib.close_position(pool, PositionInfo(tA, tB), L, s)
+        u0, u1, L, pos = V3CoreLib.new_position(pool, amt0, amt1, pA, pB, s)
+        c0, c1 = V3CoreLib.close_position(pool, PositionInfo(pA, pB), L, s)
     hi = min(S(MAX_TICK), s + rnd.choice([0, 1, rnd.randint(1, max(2, s // 50)), s]))
-    a2 = get_amounts(hi, tA, tB, L, d0, d1)
+    a2 = get_amounts(hi, pA, pB, L, d0, d1)
     k = rnd.choice([2, 3, 7])
-    ak = get_amounts(s, tA, tB, k * L, d0, d1)
+    ak = get_amounts(s, pA, pB, k * L, d0, d1)
     return {"s": limbs(s), "tA": tA, "tB": tB, "d0": d0, "d1": d1, "amt0": qj(frac(amt0)), "amt1": qj(frac(amt1)), "L": limbs(L),
             "used": [qj(frac(Decimal(u0))), qj(frac(Decimal(u1)))], "closed": [qj(frac(Decimal(c0))), qj(frac(Decimal(c1)))],
             "s2": limbs(hi), "amts2": [qj(frac(Decimal(a2[0]))), qj(frac(Decimal(a2[1])))], "k": k,
             "amtsK": [qj(frac(Decimal(ak[0]))), qj(frac(Decimal(ak[1])))],
-            "_case": c, "_via": ("market_status" if through_market == "status" else "market") if through_market else "core", "_zq": zq, "_sp": sp,
+            "_case": c, "_via": ("market_status" if through_market == "status" else "market") if through_market else "core", "_zq": zq, "_sp": sp, "_desc": bool(desc),
             "_in": {"amt0": str(amt0), "amt1": str(amt1), "s": str(s)}}
 
 
@@ -166,7 +170,7 @@ def validate(chk: Check, events):
                 e = ev[idx - 1]
                 c = e["_case"]
                 chk.violation(f"{e['_via']}|{clause}|{c['region']}",
-                              f"{e['_via']} instance region={c['region']} range={c['range']} ticks [{e['tA']},{e['tB']}] decimals ({e['d0']},{e['d1']}) "
+                              f"{e['_via']} instance region={c['region']} range={c['range']} ticks [{e['tA']},{e['tB']}]{' (passed upper bound first)' if e.get('_desc') else ''} decimals ({e['d0']},{e['d1']}) "
                               f"offered {e['_in']['amt0']}/{e['_in']['amt1']} at sqrtX96 {e['_in']['s']}: violates {clause}",
                               {"kind": "liq_instance", "event": e})
     for cl in ("no_overspend", "maximal_up_to_rounding", "one_sided_by_region", "non_negative", "closed_form_1e-30",
@@ -234,7 +238,7 @@ def replay(chk: Check, path: str) -> int:
     it = iter(amts)
     me.dec_amount = lambda r, cls, d: next(it)
     try:
-        e = record(rnd, e0["_case"], inst, e0["_via"] == "market")
+        e = record(rnd, e0["_case"], inst, e0["_via"] == "market", desc=bool(e0.get("_desc")))
     finally:
         me.dec_amount = orig
     validate(chk, [e])
